@@ -57,13 +57,17 @@ SIZES = {
     # backgrounds, random states, traced random states, accuracy plan [(n, repetitions)], malformed extra
     "quick": dict(gen="Gen_Hll_quick.cfg", edges=None, traced=150, prelude=0.35, pair_bytes=2, laws=120, walks=(16, 50),
                   backgrounds=[0, 1, 5, 20, 63, 64, 200, 255], random_states=5000, traced_states=300,
-                  acc=[(0, 4), (1, 4), (100, 10), (1000, 8), (10000, 3)], malformed=700,
+                  # cardinalities on a lattice from 100 upward, dense where estimators switch formula (small-range
+                  # correction up to 2.5 m = 640; HLL++-style thresholds around 200-260 for m = 256)
+                  acc=[(0, 4), (1, 4), (100, 10), (130, 5), (160, 5), (190, 6), (200, 8), (210, 8), (221, 10), (230, 8), (240, 6),
+                       (250, 8), (270, 5), (300, 5), (400, 5), (500, 5), (600, 5), (640, 6), (680, 5), (800, 4), (1000, 8),
+                       (2000, 3), (10000, 3)], malformed=700,
                   mc=["MC_Hll.cfg", "MC_Hll2.cfg"]),
     "thorough": dict(gen="Gen_Hll.cfg", edges=None, traced=1500, prelude=0.25, pair_bytes=4, laws=600, walks=(150, 80),
                      backgrounds=sorted(set(list(range(0, 256, 4)) + [1, 2, 5, 7, 13, 31, 33, 47, 62, 63, 65, 127, 129, 249, 250, 254, 255])),
                      random_states=40000, traced_states=3000,
                      acc=[(0, 8), (1, 8), (2, 8), (10, 8), (100, 40), (200, 20), (500, 20), (640, 20), (1000, 40),
-                          (3000, 12), (10000, 12), (50000, 6)], malformed=6000,
+                          (3000, 12), (10000, 12), (50000, 6)] + [(n, 8) for n in range(105, 1000, 5)], malformed=6000,
                      mc=["MC_Hll.cfg", "MC_Hll2.cfg", "MC_Hll_big.cfg"]),
 }
 
